@@ -1,47 +1,238 @@
-import Dia.Model
+import Dia.Dump
+import Dia.Exec
+import Dia.Server
+/-! Line-protocol interpreter (DESIGN.md Appendix A): one operation per input line, one answer line
+`<impl> | <spec> | <reason>` per operation. Imports model files only (no Mathlib), so it links as an executable. -/
 open Dia
 
-def hexVal (c : Char) : Nat :=
-  if '0' ≤ c ∧ c ≤ '9' then c.toNat - 48 else if 'a' ≤ c ∧ c ≤ 'f' then c.toNat - 87 else 0
-def unhex (s : String) : Bytes :=
-  let rec go : List Char → Bytes → Bytes
-    | a :: b :: r, acc => go r ((hexVal a * 16 + hexVal b).toUInt8 :: acc)
-    | _, acc => acc.reverse
-  go s.toList []
-def hexDigit (n : Nat) : Char := if n < 10 then Char.ofNat (48 + n) else Char.ofNat (87 + n)
-def hex (b : Bytes) : String :=
-  String.ofList (b.foldr (fun x acc => hexDigit (x.toNat / 16) :: hexDigit (x.toNat % 16) :: acc) [])
+structure DState where
+  ms : MState := {}
+  cfg : Cfg := ⟨fun _ _ => false, 32⟩
+  app : Option DocApp := none       -- application element being read
+  doc : List DocApp := []           -- document being read (reversed)
+  stash : List Doc := []            -- documents waiting for `dconstruct` (reversed)
 
-def tyOfIdx : Nat → Ty
-  | 1 => .address | 2 => .ipv4 | 3 => .ipv6 | 4 => .identity | 5 => .uri | 6 => .enumerated
-  | 7 => .float32 | 8 => .float64 | 9 => .grouped | 10 => .integer32 | 11 => .integer64 | 12 => .octets
-  | 13 => .time | 14 => .unsigned32 | 15 => .unsigned64 | 16 => .utf8 | _ => .unknown
+def Dia.Ty.idx : Ty → Nat
+  | .address => 0 | .ipv4 => 1 | .ipv6 => 2 | .identity => 3 | .uri => 4 | .enumerated => 5 | .float32 => 6
+  | .float64 => 7 | .grouped => 8 | .integer32 => 9 | .integer64 => 10 | .octets => 11 | .time => 12
+  | .unsigned32 => 13 | .unsigned64 => 14 | .utf8 => 15 | .unknown => 16
 
-def dict : Lookup := fun c v =>
-  match v with
-  | none => tyOfIdx c.toNat
-  | some v => if v.toNat = 99 then (if c.toNat = 20 then .grouped else if c.toNat = 21 then .utf8 else .unknown) else .unknown
+def pU32 (s : String) : Option UInt32 := s.toNat?.bind fun n => if n < 4294967296 then some n.toUInt32 else none
+def pU8 (s : String) : Option UInt8 := s.toNat?.bind fun n => if n < 256 then some n.toUInt8 else none
+def pVendor (s : String) : Option (Option UInt32) := if s = "-" then some none else (pU32 s).map some
+def pStr (s : String) : Option String := (unhex? s).bind fun b => String.fromUTF8? (ByteArray.mk b.toArray)
+def pI32 (s : String) : Option UInt32 :=
+  s.toInt?.bind fun i => if -2147483648 ≤ i ∧ i < 2147483648 then some (i % 4294967296).toNat.toUInt32 else none
+def pI64 (s : String) : Option UInt64 :=
+  s.toInt?.bind fun i =>
+    if -9223372036854775808 ≤ i ∧ i < 9223372036854775808 then some (i % 18446744073709551616).toNat.toUInt64 else none
+def pU64 (s : String) : Option UInt64 :=
+  s.toNat?.bind fun n => if n < 18446744073709551616 then some n.toUInt64 else none
+def pBytesN (n : Nat) (s : String) : Option Bytes := (unhex? s).bind fun b => if b.length = n then some b else none
+def pUtf8 (s : String) : Option Bytes := (unhex? s).bind fun b => if utf8Valid b then some b else none
 
-def cfg : Cfg := ⟨fun _ _ => true, 32⟩
+def parseValue : List String → Option Value
+  | ["u32", n] => (pU32 n).map .unsigned32
+  | ["i32", n] => (pI32 n).map .integer32
+  | ["enum", n] => (pI32 n).map .enumerated
+  | ["u64", n] => (pU64 n).map .unsigned64
+  | ["i64", n] => (pI64 n).map .integer64
+  | ["f32", h] => (pBytesN 4 h).map fun b => .float32 (fromBe b).toUInt32
+  | ["f64", h] => (pBytesN 8 h).map fun b => .float64 (fromBe b).toUInt64
+  | ["time", s, n] => s.toInt?.bind fun s => n.toNat?.map fun n => .time s n
+  | ["ipv4", h] => (pBytesN 4 h).map .ipv4
+  | ["ipv6", h] => (pBytesN 16 h).map .ipv6
+  | ["addr4", h] => (pBytesN 4 h).map fun b => .address (.v4 b)
+  | ["addr6", h] => (pBytesN 16 h).map fun b => .address (.v6 b)
+  | ["e164", h] => (pUtf8 h).map fun b => .address (.e164 b)
+  | ["utf8", h] => (pUtf8 h).map .utf8
+  | ["ident", h] => (pUtf8 h).map .identity
+  | ["oct", h] => (unhex? h).map .octets
+  | ["uri", h] => (unhex? h).map .uri
+  | _ => none
 
-def step (line : String) : String :=
-  match line.trimAscii.toString.splitOn " " with
-  | ["dec", h] =>
-    let bs := unhex h
-    match decMsg cfg dict bs with
-    | .ok m =>
-      let e := m.enc
-      (match e.err with
-       | none => s!"ok {hex e.bytes} {m.length}"
-       | some _ => s!"ok encerr {m.length}")
+def tyOfApiName (s : String) : Option Ty :=
+  if s = "Unknown" then some .unknown else
+  let t := tyOfName s
+  if t = .unknown then none else some t
+
+def parseOp : List String → Option Op
+  | ["new", c, a, f, h, e] => do
+    let c ← c.toNat?; let a ← a.toNat?; let f ← pU8 f; let h ← pU32 h; let e ← pU32 e
+    pure (.new c a f h e)
+  | "val" :: rest => (parseValue rest).map .val
+  | ["grp_new"] => some .grpNew
+  | ["grp_add_avp", c, v, f] => do let c ← pU32 c; let v ← pVendor v; let f ← pU8 f; pure (.grpAddAvp c v f)
+  | ["grp_add"] => some .grpAdd
+  | ["avp_new", c, v, f] => do let c ← pU32 c; let v ← pVendor v; let f ← pU8 f; pure (.avpNew c v f)
+  | ["avp_name", n] => (pStr n).map .avpName
+  | ["add"] => some .add
+  | ["add_avp", c, v, f] => do let c ← pU32 c; let v ← pVendor v; let f ← pU8 f; pure (.addAvp c v f)
+  | ["add_by_name", n] => (pStr n).map .addByName
+  | ["decode", h] => (unhex? h).map .decode
+  | ["grp_from_avp", i] => i.toNat?.map .grpFromAvp
+  | ["avp_from_msg", i] => i.toNat?.map .avpFromMsg
+  | ["reencode"] => some .reencode
+  | _ => none
+
+def statusStr : Status → String
+  | .ok => "ok" | .err => "err" | .bad => "bad"
+
+def errName : Err → String
+  | .eof => "eof" | .unknownAvp => "unknownAvp" | .mismatch => "mismatch" | .fuel => "fuel" | .short => "short"
+  | .deep => "deep" | .utf8 => "utf8" | .addr => "addr" | .cmd => "cmd" | .app => "app" | .timeRange => "timeRange"
+  | .tooLong => "tooLong"
+
+def bit (b : Bool) : String := if b then "1" else "0"
+
+def encStr (e : Enc) : String :=
+  match e.err with
+  | none => "ok " ++ hexOrDash e.bytes
+  | some _ => "err"
+
+/-- `dec <hex>`: the code's decoder (probed configuration), the strict RFC reader, and why -/
+def decLine (cfg : Cfg) (D : Dict) (bs : Bytes) : String :=
+  let impl := decMsg cfg D.lookup bs
+  let strict := decMsg (strictCfg (bs.length + 1)) D.lookup bs
+  let implS := match impl with
+    | .ok m => "ok " ++ m.dump ++ " " ++ (match m.enc.err with | none => hexOrDash m.enc.bytes | some _ => "encerr") ++
+        " " ++ toString m.length
     | .err _ => "err"
     | .panic => "panic"
-  | _ => "bad-op"
+  let specS := match strict with
+    | .ok m => "ok " ++ m.dump ++ " " ++ (match m.enc.err with | none => hexOrDash m.enc.bytes | some _ => "encerr") ++
+        " " ++ toString m.length ++ " depth=" ++ toString (depthList m.avps)
+    | .err _ => "rej"
+    | .panic => "rej"
+  let why := match impl with
+    | .ok m => "ok lie=" ++ bit (!noLieListB m.avps) ++ " depth=" ++ toString (depthList m.avps) ++
+        " n=" ++ toString m.avps.length
+    | .err e => "e=" ++ errName e
+    | .panic => "panic"
+  implS ++ " | " ++ specS ++ " | " ++ why
 
-partial def loop (h : IO.FS.Stream) (out : IO.FS.Stream) : IO Unit := do
+def defsNamed (D : Dict) (n : String) : List Def := (D.avps.filter fun kd => kd.2.name = n).map (·.2)
+
+def step (s : DState) (line : String) : DState × String :=
+  let toks := line.trimAscii.toString.splitOn " "
+  let plain (st : DState) (a : String) : DState × String := (st, a ++ " | - | -")
+  match toks with
+  | ["cfg", limit, sh, lo] =>
+    match limit.toNat? with
+    | some l =>
+      let shl := sh.toList; let lol := lo.toList
+      let f : Ty → Dir → Bool := fun t d =>
+        match d with
+        | .shorter => shl.getD t.idx '0' == '1'
+        | .longer => lol.getD t.idx '0' == '1'
+      plain { s with cfg := ⟨f, l⟩ } "ok"
+    | none => plain s "bad-op"
+  | ["dreset"] => plain { s with ms := { s.ms with dict := {} } } "ok"
+  | ["dadd", c, v, n, t, m] =>
+    match pU32 c, pVendor v, pStr n, tyOfApiName t with
+    | some c, some v, some n, some t =>
+      plain { s with ms := { s.ms with dict := s.ms.dict.add ⟨c, v, n, t, m == "1"⟩ } } "ok"
+    | _, _, _, _ => plain s "bad-op"
+  | ["doc_begin"] => plain { s with app := none, doc := [] } "ok"
+  | ["app", id, n] =>
+    match id.toNat?, pStr n with
+    | some id, some n =>
+      let doc := match s.app with | some a => a :: s.doc | none => s.doc
+      plain { s with app := some ⟨id, n, [], []⟩, doc := doc } "ok"
+    | _, _ => plain s "bad-op"
+  | ["cmd", c, n] =>
+    match c.toNat?, pStr n, s.app with
+    | some c, some n, some a => plain { s with app := some { a with cmds := a.cmds ++ [(c, n)] } } "ok"
+    | _, _, _ => plain s "bad-op"
+  | ["avp", n, c, v, must, t] =>
+    match pStr n, pU32 c, pVendor v, (if must = "~" then some none else (pStr must).map some), pStr t, s.app with
+    | some n, some c, some v, some must, some t, some a =>
+      plain { s with app := some { a with avps := a.avps ++ [⟨n, c, v, must, t⟩] } } "ok"
+    | _, _, _, _, _, _ => plain s "bad-op"
+  | "doc_end" :: mode :: _ =>
+    let doc := (match s.app with | some a => a :: s.doc | none => s.doc).reverse
+    if !docOk doc then plain { s with app := none, doc := [] } "bad-op" else
+    if mode = "stash" then plain { s with app := none, doc := [], stash := doc :: s.stash } "ok"
+    else plain { s with app := none, doc := [], ms := { s.ms with dict := s.ms.dict.loadDoc doc } } "ok"
+  | ["dconstruct"] =>
+    let D := s.stash.reverse.foldl Dict.loadDoc Dict.empty
+    plain { s with stash := [], ms := { s.ms with dict := D } } "ok"
+  | ["dget", c, v] =>
+    match pU32 c, pVendor v with
+    | some c, some v =>
+      plain s (match s.ms.dict.get c v with | some d => d.dump | none => "none")
+    | _, _ => plain s "bad-op"
+  | ["dbyname", n] =>
+    match pStr n with
+    | some n =>
+      let live := defsNamed s.ms.dict n
+      (s, (match s.ms.dict.getByName n with | some d => d.dump | none => "none") ++ " | live:" ++
+        String.intercalate ";" (live.map Def.dump) ++ " | n=" ++ toString live.length)
+    | none => plain s "bad-op"
+  | ["dapp", n] =>
+    match pStr n with
+    | some n => plain s (match s.ms.dict.appByName n with | some x => toString x | none => "none")
+    | none => plain s "bad-op"
+  | ["dcmd", n] =>
+    match pStr n with
+    | some n => plain s (match s.ms.dict.cmdByName n with | some x => toString x | none => "none")
+    | none => plain s "bad-op"
+  | ["dsize"] => plain s (toString s.ms.dict.avps.length)
+  | ["clear"] => plain { s with ms := { s.ms with stack := [] } } "ok"
+  | ["enc"] =>
+    let m := s.ms.msg
+    (s, encStr m.enc ++ " | " ++ hexOrDash (Spec.encode m.abs) ++ " | wf=" ++ bit (wfListB m.avps) ++ " cons=" ++
+      bit (consListB m.avps && m.length == 20 + lenList m.avps) ++ " small=" ++ bit (decide (m.length < 16777216)))
+  | ["len"] =>
+    let m := s.ms.msg
+    (s, toString m.length ++ " | " ++ toString (Spec.encode m.abs).length ++ " | -")
+  | ["dump"] => plain s s.ms.msg.dump
+  | ["rt"] =>
+    let m := s.ms.msg
+    let r := match m.enc.err with
+      | some _ => "encerr"
+      | none =>
+        match decMsg s.cfg s.ms.dict.lookup m.enc.bytes with
+        | .ok m' => m'.dump
+        | .err _ => "err"
+        | .panic => "panic"
+    (s, r ++ " | " ++ m.dump ++ " | typed=" ++ bit (typedListB s.ms.dict.lookup m.avps) ++ " depth=" ++
+      toString (depthList m.avps) ++ " wf=" ++ bit (wfListB m.avps))
+  | ["get", c] =>
+    match pU32 c with
+    | some c => plain s (match s.ms.msg.getAvpIdx c with | some i => toString i | none => "-")
+    | none => plain s "bad-op"
+  | ["acc"] => plain s ("[" ++ accDumpList s.ms.msg.avps ++ "]")
+  | ["dec", h] =>
+    match unhex? h with
+    | some bs => (s, decLine s.cfg s.ms.dict bs)
+    | none => plain s "bad-op"
+  | ["decq", h] =>
+    -- C04: outcome class only (no strict column: it would recurse as deep as the frame nests)
+    match unhex? h with
+    | some bs =>
+      (s, match decMsg s.cfg s.ms.dict.lookup bs with
+        | .ok m => "ok | - | ok depth=" ++ toString (depthList m.avps) ++ " n=" ++ toString m.avps.length ++
+            " enc=" ++ (match m.enc.err with | none => "ok" | some e => errName e)
+        | .err e => "err | - | e=" ++ errName e
+        | .panic => "panic | - | panic")
+    | none => plain s "bad-op"
+  | _ =>
+    match parseOp toks with
+    | some op =>
+      let (ms, st) := s.ms.step s.cfg op
+      plain { s with ms := ms } (statusStr st)
+    | none => plain s "bad-op"
+
+partial def loop (h : IO.FS.Stream) (out : IO.FS.Stream) (s : DState) : IO Unit := do
   let line ← h.getLine
   if line.isEmpty then return ()
-  out.putStrLn (step line)
-  loop h out
+  if line.startsWith "#" then
+    out.putStrLn "#"
+    loop h out s
+  else
+    let (s', o) := step s line
+    out.putStrLn o
+    loop h out s'
 
-def main : IO Unit := do loop (← IO.getStdin) (← IO.getStdout)
+def main : IO Unit := do loop (← IO.getStdin) (← IO.getStdout) {}
